@@ -403,7 +403,7 @@ func c09Run(raw json.RawMessage) (Case, error) {
 var (
 	c09Fields = []string{"a", "b", "c", "http.status"}
 	c09Ints   = []int64{0, 1, -1, 2, 127, 128, 200, 255, 256, 404, 65535, 65536, 1 << 24, 1<<24 + 1, 1 << 31, 1<<32 - 1, 1 << 32,
-		1 << 53, -(1 << 53), 1<<53 - 1, -200, -129, 1<<63 - 1, -1 << 63, 1<<53 + 1}
+		1 << 53, -(1 << 53), 1<<53 - 1, -200, -129, 1<<63 - 1, -1 << 63, 1<<53 + 1, 1 << 60, -(1 << 62), 1<<60 + 256, 1000000, 123456789012}
 	c09Floats = []float64{0.5, 1.5, -2.5, 200, 404, 0.1, float64(float32(0.1)), 1e21, 9223372036854775808, 18446744073709549568,
 		3.4028234663852886e38, 16777216, 16777217, 1e-7, 200.5, 2, 0.25, 1e6, 123456789}
 	c09Strs = []string{"", "200", "abc", "1.5", "true", "404", "0.1", "ab"}
@@ -429,8 +429,12 @@ func c09PickVal(r *rand.Rand) rvVal {
 
 func c09JSONSafe(sp []c08Field) bool {
 	for _, f := range sp {
-		if f.V.K == "int" && (f.V.I > c09Safe || f.V.I < -c09Safe) {
-			return false
+		// a JSON number is decoded into a float64: only integers a float64 holds exactly are
+		// "the same value" on a JSON path
+		if f.V.K == "int" {
+			if x := float64(f.V.I); math.Abs(x) >= 9.2e18 || int64(x) != f.V.I {
+				return false
+			}
 		}
 	}
 	return true
@@ -552,8 +556,7 @@ func c09Gen(r *rand.Rand, tier string, i int) any {
 	if r.Intn(100) < 75 {
 		in.Root = r.Intn(nspans)
 	}
-	// rules: conditions aimed at the values of the trace; integer condition values stay within
-	// +-2^53 (see notes/C09.md: beyond that, int64 and float64 field values compare differently)
+	// rules: conditions aimed at the values of the trace (same or neighbouring numbers, also beyond 2^53)
 	nrules := 1 + r.Intn(3)
 	for k := 0; k < nrules; k++ {
 		ru := c08Rule{Name: fmt.Sprintf("r%d", k), Scope: []string{"", "trace", "span"}[r.Intn(3)]}
@@ -568,7 +571,6 @@ func c09Gen(r *rand.Rand, tier string, i int) any {
 		nc := []int{0, 1, 1, 2, 2}[r.Intn(5)]
 		for j := 0; j < nc; j++ {
 			c := c08GenCond(r, pool)
-			c09ClampCond(&c.Val)
 			ru.Conds = append(ru.Conds, c)
 		}
 		in.Rules = append(in.Rules, ru)
@@ -601,23 +603,6 @@ func c09Gen(r *rand.Rand, tier string, i int) any {
 		in.Variants = append(in.Variants, c09MakeVariant(r, in.Spans, cl))
 	}
 	return in
-}
-
-func c09ClampCond(v *rvVal) {
-	clamp := func(x *rvVal) {
-		if (x.K == "int" || x.K == "i64") && (x.I >= c09Safe || x.I <= -c09Safe) {
-			x.I = x.I % 1000
-		}
-		if x.K == "s" {
-			if n, err := strconv.ParseInt(x.S, 10, 64); err == nil && (n >= c09Safe || n <= -c09Safe) {
-				x.S = "77"
-			}
-		}
-	}
-	clamp(v)
-	for i := range v.L {
-		clamp(&v.L[i])
-	}
 }
 
 // ---------------------------------------------------------------- shrink
